@@ -197,10 +197,20 @@ func CheckDemand(o *vsched.Outcome) (string, string) {
 	answered := map[string]int{}
 	closedAt := -1
 	attached := map[string]bool{} // reader sessions attached to the stream for sure
+	pubAttached := map[string]bool{}
+	pubGone := map[string]bool{}
 	shuttingDown := false
 	for i, l := range o.Trace {
 		w := strings.Fields(l)
 		switch {
+		case len(w) == 2 && w[0] == "attached":
+			// ("attached" is logged by the publisher's task once it has its answer: the path may have closed it already)
+			if !pubGone[w[1]] {
+				pubAttached[w[1]] = true
+			}
+		case len(w) == 2 && (w[0] == "removing" || (w[0] == "close" && !strings.HasPrefix(w[1], "R"))):
+			pubGone[w[1]] = true
+			delete(pubAttached, w[1])
 		case len(w) == 2 && w[1] == "requests":
 			requested[w[0]]++
 		case len(w) >= 3 && w[1] == "answered":
@@ -217,6 +227,10 @@ func CheckDemand(o *vsched.Outcome) (string, string) {
 			}
 		case w[0] == "closed":
 			closedAt = i
+			// the manager has shut down: every path has terminated, and a terminating path closes its publisher
+			if len(pubAttached) > 0 {
+				return "publisher-not-closed-on-path-close", fmt.Sprintf("the path manager was shut down but publisher(s) %v, attached to a path, were never closed | %s", keys(pubAttached), tr)
+			}
 		case w[0] == "closing":
 			shuttingDown = true
 		case w[0] == "close" || w[0] == "detaching":
